@@ -117,6 +117,14 @@ bool File::open(const String& file, uint flags)
     fp = 0;
     return false;
   }
+  struct stat fileStat;
+  if(fstat((int)(intptr_t)fp, &fileStat) == 0 && S_ISDIR(fileStat.st_mode))
+  { // directories can be opened for reading, but they have no contents to read or seek in
+    ::close((int)(intptr_t)fp);
+    fp = 0;
+    errno = EISDIR;
+    return false;
+  }
   if(flags & appendFlag)
   {
     if(lseek((int)(intptr_t)fp, 0, SEEK_END) == -1)
